@@ -20,6 +20,9 @@ CLAIMED["C15"]=("Bounded symbolic execution of the real evalStmts/_evalStmts/eva
 CLAIMED["C07"]=("Bounded symbolic execution of the real evaluator over 25 program templates whose sub-expressions are fault-injection slots step(i): the failing position K is a solver variable in [0, m] and the error kind a solver choice; on every feasible path z3 discharges that nothing is evaluated after the failing slot, no slot runs twice, the enclosing call/statement list does not continue, the outcome is the same error kind and message (or is delivered to try / the thoughtful chain), and without a failure every slot runs once.",
         TRUST,
         "SMT-decided bounded symbolic execution of go/ssa (z3, bit-vectors); symbolic fault position")
+CLAIMED["C08"]=("Bounded symbolic execution of the real evaluator over 26 templates with side-effecting slots, in which the iteration order of every Go map (2..4 entries) touched during evaluation is chosen by the solver: on every feasible order z3 discharges that the slots run exactly once in source order and that the result prints identically (first occurrence wins, documented key orders). Covers every hash-table layout within the bound instead of the handful a test run happens to see.",
+        TRUST+" The list of audited order-insensitive map loops is part of the claim (evidence.assumptions).",
+        "SMT-decided bounded symbolic execution of go/ssa with solver-chosen Go map iteration order (z3)")
 NA={
 }
 DEFAULT_NA="check under construction in this session (engine exists; harness not yet registered)"
